@@ -2,7 +2,10 @@
 
 Lean: DS.Model.Orbit (literal transcription of expandPosition on exact coordinates),
 DS.Props.C02 (orbit_exact under Sep, orbit–stabiliser, for every tabulated setting via C03).
-Tie: correspondence model vs `expandPosition`/`GeneratorSite` on all settings x strata x variants.
+Tie: (1) source tie DS.Props.SrcSym: `translate/src_sym.py` transliterates the CURRENT source of expandPosition and its
+helpers over a generic ordered field with floor, and the theorem `refines` proves that this transliteration on x/D,
+off/D, eps = E/D is DS.Orbit.expand / D (exact real/rational arithmetic); (2) correspondence model vs
+`expandPosition`/`GeneratorSite` on all settings x strata x variants (floating point).
 Oracle: exact orbit with `fractions` computed from the runtime tables, independent of the model.
 """
 import json
@@ -78,9 +81,10 @@ def parse_model(out, D):
     return int(m), pos, cls
 
 
-def gen_cases(ck, sgs, allstrata):
-    """yield (sg, kind, x0 exact special site, x actual input (Fractions), off)."""
-    nmax = 6 if ck.tier == "quick" else 10 ** 6
+def gen_cases(ck, sgs, allstrata, widen=False):
+    """yield (sg, kind, x0 exact special site, x actual input (Fractions), off).
+    `widen`: the source tie is broken, search harder (more sites per setting, origin offsets for every site)."""
+    nmax = (10 if widen else 6) if ck.tier == "quick" else 10 ** 6
     offs = [(Fraction(0),) * 3, (Fraction(1, 4), Fraction(1, 4), Fraction(1, 4)), (Fraction(1, 10), Fraction(1, 5), Fraction(3, 10)),
             (Fraction(0), Fraction(1, 4), Fraction(0)), (Fraction(1, 4), Fraction(1, 8), Fraction(0)), (Fraction(0), Fraction(0), Fraction(1, 2))]
     for sg in sgs:
@@ -129,7 +133,7 @@ def gen_cases(ck, sgs, allstrata):
                         break
             n2 = [ck.rng.choice([-2, -1, -1, 1]) for _ in range(3)]
             yield sg, "inside+shift", [x0[j] + n2[j] for j in range(3)], [xin[j] + n2[j] for j in range(3)], zero, st[i]
-            if ck.tier == "thorough" or i in idx[:2]:
+            if ck.tier == "thorough" or widen or i in idx[:2]:
                 off = offs[1 + (sg.number + i) % (len(offs) - 1)]   # also origin shifts along one or two axes only
                 xo = [x0[j] - off[j] for j in range(3)]
                 yield sg, "offset", xo, xo, off, st[i]
@@ -226,6 +230,29 @@ def check_impl(sg, kind, x0, x, off, expandPosition, GeneratorSite):
     return None, (len(pos), [list(map(float, p)) for p in pos], got)
 
 
+def source_tie_sym(ck):
+    """`ck.source_tie` for the group "sym"; repeated when another check running at the same time (other tree, same
+    lean/DS/Gen) has overwritten the generated file between translation and build"""
+    from translate import pysrc
+    ok, info = False, {}
+    for attempt in range(3):
+        before = (ck.coverage["obligations"], ck.coverage["discharged"])
+        ok, info = ck.source_tie("DS.Props.SrcSym", groups=("sym",))
+        try:
+            pysrc.REPO = common.REPO
+            plug = pysrc.plugins()["sym"]
+            want = plug.translate({})
+            have = open(os.path.join(common.LEAN, "DS", "Gen", plug.OUTFILE), encoding="utf-8").read()
+        except Exception:  # noqa: BLE001  (unreadable source: source_tie has already recorded the broken tie)
+            break
+        if want == have:
+            break
+        ck.notes.append("lean/DS/Gen/SrcSym.lean was overwritten by a concurrent run; source tie repeated")
+        if attempt < 2:
+            ck.coverage["obligations"], ck.coverage["discharged"] = before
+    return ok, info
+
+
 def run(ck):
     import diffpy.structure.spacegroups as sgs
     from diffpy.structure.symmetryutilities import GeneratorSite, expandPosition
@@ -238,6 +265,8 @@ def run(ck):
 
     rep = tables.main(os.path.join(common.LEAN, "DS", "Gen"), os.path.join(common.LEAN, "DS", "Gen", "tables_report.json"))
     translated = {s["number"] for s in rep["settings"]}
+    # source tie: the integer model is the transliteration of the current source in exact arithmetic (DS.Props.SrcSym.refines)
+    tie_ok, tie_info = source_tie_sym(ck)
     ok, info = ck.lean_obligations("DS.Props.C02")
     ok_g, info_g = ck.lean_obligations("DS.Props.C02Gap")
     if not ok_g:
@@ -256,7 +285,7 @@ def run(ck):
             cases.append((g, r["variant"], [Fraction(v) for v in r["special_site"]], [Fraction(v) for v in r["xyz"]],
                           tuple(Fraction(v) for v in r["sgoffset"]), {"nstab": 1, "corpus": True}))
     ck.coverage["corpus_cases"] = len(cases)
-    cases += list(gen_cases(ck, sgs.SpaceGroupList, allstrata))
+    cases += list(gen_cases(ck, sgs.SpaceGroupList, allstrata, widen=not tie_ok))
     lines, Ds, mcases = [], [], []
     for c in cases:
         sg, kind, x0, x, off, st = c
@@ -333,10 +362,13 @@ def run(ck):
         {"input": lines[i], "model": (outs[i][:200] if outs else None)} for i in (0, len(lines) // 2, len(lines) - 1) if lines
     ]
     ck.assumptions += [
+        "DS.Props.SrcSym.refines ties DS.Orbit to the current source in exact arithmetic over any ordered field with floor (Q, R): numpy/Python primitives as read in lean/DS/Model/SymReal.lean (element-wise ops, floor, masked assignment = where, argmin = first minimum, int = truncation, dict of list objects); the eps == 0 / eps < 1/sys.maxsize branch of _Position2Tuple and the default eps are text facts; parameter types are fixed from the call sites",
         "float rounding inside SymOp.__call__ and the bucket arithmetic is observed only through the differential (tolerance 1e-9; 5e-7 for sites perturbed by 1e-7)",
         "orbit_exact covers sites whose images are pairwise equal or farther apart than eps (Sep); gap_result / perturbed_counts cover sites whose images are pairwise within eps/4 or farther than 2 eps (Gap), in particular perturbations of an exactly special site by less than eps/8; configurations in between are covered by correspondence + oracle only",
     ]
-    ck.coverage["trusted_base"] += ["translate/tables.py", "harness/strata.py (generator of sites; not an oracle)"]
+    ck.coverage["trusted_base"] += ["translate/tables.py", "harness/strata.py (generator of sites; not an oracle)",
+                                    "translate/src_sym.py + lean/DS/Model/SymReal.lean (transliteration of expandPosition and the reading of the numpy primitives it is written in)"]
+    ck.tie_verdict(tie_ok, tie_info, "symmetryutilities.py expandPosition/_Position2Tuple/positionDifference/nearestSiteIndex/equalPositions, spacegroupmod.py SymOp.__call__")
     if not ok and not ck.violations:
         ck.fail("lean-build", "Lean obligations of C02 no longer check: %r" % info["failed_modules"],
                 {"kind": "proof-obligation", "theorem": info["failed_modules"], "errors": info["errors"]}, no_failing_input=True)
